@@ -23,13 +23,20 @@ META_POOL = [
     {"note": None, "tags": ["a", "b"], "nested": {"x": {"y": [1, 2, {"z": None}]}}},
     {"model": "VSS_BMIX", "model_params": ["dm"], "weight": 0.25},
     {"model_params": [0.5]},
+    # falsy parameter values that are not "no parameters given": kept as they are
+    {"model": "PHSP", "model_params": []},
+    {"model": "VSS", "model_params": 0},
+    {"model_params": 0.0, "flag": False, "count": 0},
 ]
 PATTERNS = [("{mother} -> {daughters}", "({mother} -> {daughters})"),
             ("{mother} --> {daughters}", "[{mother} --> {daughters}]"),
             ("{mother} => {daughters}", "{mother} (=> {daughters})"),
             ("{daughters} <- {mother}", "<{daughters} <- {mother}>"),
             ("{mother}: {daughters}", "<{mother}: {daughters}>"),
-            ("[{mother} -> {daughters}]", "[{mother} -> {daughters}]")]
+            ("[{mother} -> {daughters}]", "[{mother} -> {daughters}]"),
+            # what str.format makes of a pattern: escaped braces are single braces, conversions and specs apply
+            ("{mother} -> {daughters}", "{{{mother} -> {daughters}}}"),
+            ("{mother!s} => {daughters:s}", "({mother:s} => {daughters!s})")]
 
 
 def _readable(w):
